@@ -22,6 +22,10 @@ FILES = {
     "matid/classification/classifier.py": ["C17", "C18", "C19"],
     "matid/core/distances.py": ["C10", "C09"],
     "matid/utils/segfault_protect.py": ["C05", "C06"],
+    "matid/classification/classifications.py": ["C17", "C18"],
+    "matid/core/system.py": ["C12", "C07", "C20"],
+    "matid/symmetry/wyckoffset.py": ["C07", "C08"],
+    "matid/data/element_data.py": ["C19", "C09"],
 }
 CMP = {ast.Lt: ast.LtE, ast.LtE: ast.Lt, ast.Gt: ast.GtE, ast.GtE: ast.Gt, ast.Eq: ast.NotEq, ast.NotEq: ast.Eq, ast.Is: ast.IsNot, ast.IsNot: ast.Is,
        ast.In: ast.NotIn, ast.NotIn: ast.In}
